@@ -56,16 +56,17 @@ def _pool(ts: List[int], st: List[int]):
 
 
 def _pool2(ts: List[int], st: List[int]):
-    """two attempts of one launch, one run each (same launch id, attempts 1 and 2)."""
+    """two attempts of one launch, one run each (same launch id, attempts 1 and 2), written by two drivers: the per-driver
+    sequence numbers restart, so records of the two attempts share (record_type, run_id, seq)."""
     spec = {"version": 1, "nodes": [{"node_uuid": "n1"}], "edges": []}
     return [
-        {"record_type": "run_space_start", "run_id": "L", "run_space_launch_id": "L", "run_space_attempt": 1, "run_space_planned_run_count": 1, "timestamp": ts[0]},
-        {"record_type": "pipeline_start", "run_id": "R1", "pipeline_id": "P", "pipeline_spec_canonical": spec, "meta": {}, "timestamp": ts[1], "run_space_launch_id": "L", "run_space_attempt": 1},
-        {"record_type": "run_space_end", "run_id": "L", "run_space_launch_id": "L", "run_space_attempt": 1, "timestamp": ts[2]},
-        {"record_type": "run_space_start", "run_id": "L", "run_space_launch_id": "L", "run_space_attempt": 2, "run_space_planned_run_count": 1, "timestamp": ts[3]},
-        {"record_type": "pipeline_start", "run_id": "R2", "pipeline_id": "P", "pipeline_spec_canonical": spec, "meta": {}, "timestamp": ts[4], "run_space_launch_id": "L", "run_space_attempt": 2},
-        {"record_type": "run_space_end", "run_id": "L", "run_space_launch_id": "L", "run_space_attempt": 2, "timestamp": ts[5]},
-        {"record_type": "pipeline_end", "run_id": "R1", "summary": {"status": "ok"}, "timestamp": ts[6]},
+        {"record_type": "run_space_start", "run_id": "L", "run_space_launch_id": "L", "run_space_attempt": 1, "run_space_planned_run_count": 1, "timestamp": ts[0], "seq": 1},
+        {"record_type": "pipeline_start", "run_id": "R1", "pipeline_id": "P", "pipeline_spec_canonical": spec, "meta": {}, "timestamp": ts[1], "run_space_launch_id": "L", "run_space_attempt": 1, "seq": 2},
+        {"record_type": "run_space_end", "run_id": "L", "run_space_launch_id": "L", "run_space_attempt": 1, "timestamp": ts[2], "seq": 4},
+        {"record_type": "run_space_start", "run_id": "L", "run_space_launch_id": "L", "run_space_attempt": 2, "run_space_planned_run_count": 1, "timestamp": ts[3], "seq": 1},
+        {"record_type": "pipeline_start", "run_id": "R2", "pipeline_id": "P", "pipeline_spec_canonical": spec, "meta": {}, "timestamp": ts[4], "run_space_launch_id": "L", "run_space_attempt": 2, "seq": 2},
+        {"record_type": "run_space_end", "run_id": "L", "run_space_launch_id": "L", "run_space_attempt": 2, "timestamp": ts[5], "seq": 4},
+        {"record_type": "pipeline_end", "run_id": "R1", "summary": {"status": "ok"}, "timestamp": ts[6], "seq": 3},
         {"record_type": "ser", "identity": {"run_id": "R2", "pipeline_id": "P", "node_id": "n1"}, "status": STATUSES[st[0]], "timing": {"started_at": ts[6], "finished_at": ts[7]}, "timestamp": ts[7], "seq": 1},
     ]
 
